@@ -238,6 +238,28 @@ func c04(r *report.Run) {
 		})
 		order += int64(total)
 	}
+	// literals that end inside an escape sequence, numbers that end inside an exponent, ... (every prefix of valid literals)
+	var prefixes []string
+	for _, lit := range []string{`"\x41"`, `'\u00e9'`, `"\U0001F600"`, `"\101"`, `"a\n"`, `0x1F`, `1.5e+10`, `1_000`, `.5e-3`, `"é😀"`, `a?.b`, `not in`, `1..2`, `a ?: b`, `{a: 1}`, `all(a, {#})`} {
+		for _, q := range []string{"", " ", "(", "[", "a + ", "f(", "{a: "} {
+			rs := []byte(lit)
+			for k := 1; k <= len(rs); k++ {
+				prefixes = append(prefixes, q+string(rs[:k]), q+string(rs[:k])+string(rs[0]))
+			}
+		}
+	}
+	base := order
+	par.ForW(len(prefixes), func(w, i int) {
+		src := prefixes[i]
+		guard.Enter(w, fmt.Sprintf("prefix %q", src))
+		defer guard.Leave(w)
+		atomic.AddInt64(&evals, 3)
+		if kind, what := c04All(src, full, []expr.Option{expr.Env(henv.Env{})}); kind != "" {
+			rep("literal-prefix", kind, fmt.Sprintf("%q", src), what, base+int64(i), src)
+		}
+	})
+	order += int64(len(prefixes))
+	r.Set("literal_prefixes", len(prefixes))
 	r.Set("byte_string_length_completed", maxLen)
 	// (b) token sequences
 	toks := []string{"a", "I", "A", "O", "1", `"s"`, "nil", "not", "-", "*", "and", "==", "in", "..", "?", ":", "(", ")", ".", "?.", "[", "]", ",", "{", "}", "#", "all", "len", "Id", "N"}
@@ -328,7 +350,7 @@ func c04(r *report.Run) {
 	for k := range runEnvs {
 		envNames = append(envNames, k)
 	}
-	base := order
+	base = order
 	var optCases int64
 	par.ForW(len(progs), func(w, pi int) {
 		src := progs[pi]
@@ -405,35 +427,39 @@ func c04Shapes() map[string]string {
 	rep := func(unit string, n int) string { return strings.Repeat(unit, n/len(unit)) }
 	const K = 65536
 	return map[string]string{
-		"open-parens":       rep("(", K),
-		"balanced-parens":   rep("(", K/2-1) + "1" + rep(")", K/2-1),
-		"open-brackets":     rep("[", K),
-		"balanced-brackets": rep("[", K/2-1) + "1" + rep("]", K/2-1),
-		"open-braces":       rep("{a:", K),
-		"unary-minus":       rep("-", K-1) + "1",
-		"unary-not":         rep("not ", K-4) + "true",
-		"postfix-index":     "A" + rep("[0]", K-4),
-		"postfix-prop":      "O" + rep(".Next", K-5),
-		"postfix-nilsafe":   "O" + rep("?.Next", K-6),
-		"ternary-chain":     rep("B ? 1 : ", K-8) + "2",
-		"binary-chain":      rep("1 + ", K-4) + "1",
-		"and-chain":         rep("B and ", K-8) + "B",
-		"pow-chain":         rep("1 ** ", K-8) + "1",
-		"closure-nest":      rep("all(A, {", K/3) + "true" + rep("})", K/3/4),
-		"closure-nest-ok":   rep("all(A, {", 8000) + "true" + rep("})", 8000),
-		"string-64k":        `"` + rep("a", K-2) + `"`,
-		"escape-64k":        `"` + rep(`\n`, K-2) + `"`,
-		"ident-64k":         rep("a", K),
-		"digits-64k":        rep("9", K),
-		"dots":              rep(".", K),
-		"hashes":            rep("#", K),
-		"question-marks":    rep("?", K),
-		"commas-in-call":    "Sum(" + rep("1,", K-8) + "1)",
-		"array-64k":         "[" + rep("1,", K-4) + "1]",
-		"map-64k":           "{" + rep("a:1,", K-8) + "a:1}",
-		"invalid-utf8":      rep("\xff", K),
-		"newlines":          rep("\n", K-1) + "1",
-		"const-ranges-1e6":  "[" + rep("0..999999,", 6500*10) + "1]",
+		"open-parens":        rep("(", K),
+		"balanced-parens":    rep("(", K/2-1) + "1" + rep(")", K/2-1),
+		"open-brackets":      rep("[", K),
+		"balanced-brackets":  rep("[", K/2-1) + "1" + rep("]", K/2-1),
+		"open-braces":        rep("{a:", K),
+		"unary-minus":        rep("-", K-1) + "1",
+		"unary-not":          rep("not ", K-4) + "true",
+		"postfix-index":      "A" + rep("[0]", K-4),
+		"postfix-prop":       "O" + rep(".Next", K-5),
+		"postfix-nilsafe":    "O" + rep("?.Next", K-6),
+		"ternary-chain":      rep("B ? 1 : ", K-8) + "2",
+		"binary-chain":       rep("1 + ", K-4) + "1",
+		"and-chain":          rep("B and ", K-8) + "B",
+		"pow-chain":          rep("1 ** ", K-8) + "1",
+		"closure-nest":       rep("all(A, {", K/3) + "true" + rep("})", K/3/4),
+		"closure-nest-ok":    rep("all(A, {", 8000) + "true" + rep("})", 8000),
+		"string-64k":         `"` + rep("a", K-2) + `"`,
+		"escape-64k":         `"` + rep(`\n`, K-2) + `"`,
+		"ident-64k":          rep("a", K),
+		"digits-64k":         rep("9", K),
+		"dots":               rep(".", K),
+		"hashes":             rep("#", K),
+		"question-marks":     rep("?", K),
+		"commas-in-call":     "Sum(" + rep("1,", K-8) + "1)",
+		"array-64k":          "[" + rep("1,", K-4) + "1]",
+		"map-64k":            "{" + rep("a:1,", K-8) + "a:1}",
+		"invalid-utf8":       rep("\xff", K),
+		"newlines":           rep("\n", K-1) + "1",
+		"const-ranges-1e6":   "[" + rep("0..999999,", 6500*10) + "1]",
+		"overloaded-chain":   rep("I + ", 400) + "I", // compiled with Operator("+", "Add"): checking must stay polynomial
+		"overloaded-chain-s": rep("S + ", 200) + "S",
+		"nested-calls":       rep("Id(", 20000) + "1" + rep(")", 20000/3),
+		"nested-calls-ok":    rep("Id(", 5000) + "1" + rep(")", 5000),
 	}
 }
 
@@ -444,7 +470,11 @@ func c04StressChild() {
 	shape := os.Args[4]
 	src := c04Shapes()[shape]
 	full := *henv.MakeFull(henv.Val{})
-	kind, what := c04All(src, full, []expr.Option{expr.Env(henv.Env{})})
+	ops := []expr.Option{expr.Env(henv.Env{})}
+	if strings.HasPrefix(shape, "overloaded") {
+		ops = append(ops, expr.Operator("+", "Add", "Cat"))
+	}
+	kind, what := c04All(src, full, ops)
 	if kind != "" {
 		fmt.Printf("STRESS-VIOLATION %s %s\n", kind, what)
 		os.Exit(3)
